@@ -125,6 +125,18 @@ fn gen_content(rng: &mut Rng, file: usize) -> String {
             _ => format!("{}\n", rng.below(1 << 31)),
         };
     }
+    if rng.chance(1, 12) {
+        // a large file whose multi-byte characters straddle 4/8/16 KiB offsets
+        let pad = rng.urange(0, 3);
+        let mut s = "x".repeat(pad);
+        let unit = *rng.pick(&["\u{e9}", "\u{20ac}", "\u{1f600}", "ab\u{e9}"]);
+        let target = *rng.pick(&[4100usize, 8200, 8200, 16400, 24600]);
+        while s.len() < target {
+            s.push_str(unit);
+        }
+        s.push('\n');
+        return s;
+    }
     match rng.below(10) {
         0 => String::new(),
         1 => "\n".to_string(),
@@ -430,6 +442,16 @@ impl Property for C20 {
                 Some(Err(_)) => errors += 1,
             }
         }
+        // a caller may poll an exhausted iterator again (by_ref, count, fuse-less
+        // adaptors): it must return normally, and anything it yields counts
+        for _ in 0..2 {
+            ctx.step("next-after-end", 0, 0);
+            match db.next() {
+                None => {}
+                Some(Ok(p)) => yielded.push((p.pkgname().clone(), p.pkgbase().clone(), p.pkgversion().clone())),
+                Some(Err(_)) => errors += 1,
+            }
+        }
         // installer steps scheduled after the iterator finished still happen, so
         // that the final tree does not depend on how many next() calls there were
         while si < sc.installer.len() {
@@ -666,7 +688,18 @@ impl Property for C20 {
             }
             for f in 0..NFILES {
                 let simple = if f == F_SIZE_ALL || f == F_SIZE_PKG { "1" } else { "x" };
-                if p.contents[f] != simple {
+                if p.contents[f] != simple && p.contents[f].len() > 64 {
+                // halve large contents first
+                let half: String = p.contents[f].chars().take(p.contents[f].chars().count() / 2).collect();
+                let mut s = sc.clone();
+                s.pkgs[i].contents[f] = half;
+                out.push(s);
+                let tail: String = p.contents[f].chars().skip(p.contents[f].chars().count() / 2).collect();
+                let mut s = sc.clone();
+                s.pkgs[i].contents[f] = tail;
+                out.push(s);
+            }
+            if p.contents[f] != simple {
                     let mut s = sc.clone();
                     s.pkgs[i].contents[f] = simple.to_string();
                     out.push(s);
